@@ -137,11 +137,22 @@ class Sandbox:
         return sorted(os.listdir(self.tmp))
 
     # -- external mutations ----------------------------------------------
+    def _force_dirs(self, d):
+        """mkdir -p d, replacing regular files that are in the way."""
+        if os.path.isdir(d):
+            return
+        parent = os.path.dirname(d)
+        if parent != d and len(parent) >= len(self.root):
+            self._force_dirs(parent)
+        if os.path.lexists(d) and not os.path.isdir(d):
+            os.remove(d)
+        os.mkdir(d)
+
     def ext(self, step):
         do = step['do']
         fn = self.path(step['p'])
         if do == 'write':
-            os.makedirs(os.path.dirname(fn), exist_ok=True)
+            self._force_dirs(os.path.dirname(fn))
             if os.path.isdir(fn):
                 shutil.rmtree(fn)
             self.write_file(fn, step['c'], step['sz'], step.get('mt'))
@@ -163,12 +174,10 @@ class Sandbox:
             if os.path.isdir(fn) and not os.listdir(fn):
                 os.rmdir(fn)
         elif do == 'mkdir':
-            if os.path.lexists(fn) and not os.path.isdir(fn):
-                os.remove(fn)
-            os.makedirs(fn, exist_ok=True)
+            self._force_dirs(fn)
         elif do == 'plant_raw':
             # arbitrary bytes (cache corruption classes); content id given by caller
-            os.makedirs(os.path.dirname(fn), exist_ok=True)
+            self._force_dirs(os.path.dirname(fn))
             if os.path.isdir(fn):
                 shutil.rmtree(fn)
             data = bytes.fromhex(step['hex'])
